@@ -236,6 +236,27 @@ def run(ctx):
                     if not ok:
                         res.find(key, g.loc(), "CALL %s argument (%s): insertion into `%s` happens under conditions %s; expected exactly %s" % (src_, variant, which, [sorted(x) for x in got] if got else "never", sorted(want)), "`CALL f x x` with (a : REAL, b : mut REAL): the write of x is not reported, or an immutable argument is reported written")
         res.count("call_table_rows", len(rows), floor=8)
+    # MemoryAccesses::union (used to fold the accesses of definition bodies) merges all three sets on every path
+    un = [g_ for g_ in db.fns if g_.path == MA + "::union"]
+    if len(un) != 1:
+        res.missing_anchor("MemoryAccesses::union")
+    else:
+        u = un[0]
+        for fld in ("reads", "writes", "captures"):
+            key = "K3|union-merges|%s" % fld
+            sites_ = []
+            for bb, t, c in u.calls():
+                if c and c.get("name") in ("extend", "union", "append") and len(t["args"]) >= 2:
+                    recv = fn_expr_operand(u, t["args"][0])
+                    arg = fn_expr_operand(u, t["args"][1])
+                    r_ok = any(n[0] == "field" and n[2] == fld and n[1][0] == "param" and n[1][1] == 1 for n in _paths_nodes(recv))
+                    a_ok = any(n[0] == "field" and n[2] == fld and n[1][0] == "param" and n[1][1] == 2 for n in _paths_nodes(arg))
+                    if r_ok and a_ok:
+                        sites_.append(bb)
+            ok = len(sites_) == 1 and not u.control_deps(sites_[0], transitive=False) and all(sites_[0] in u.dominators().get(rb, set()) for rb in u.return_blocks())
+            res.site(key, True, {"merge_sites": len(sites_), "verdict": "ok" if ok else "VIOLATION"})
+            if not ok:
+                res.find(key, u.loc(), "MemoryAccesses::union does not merge `rhs.%s` into `self.%s` on every path" % (fld, fld), "the accesses of `DEFCIRCUIT c q: MEASURE q ro; RZ(theta) q` lose the capture of `ro`")
     res.explanation = "Per-variant operand-to-access-kind flows (%d table rows) computed from the MemoryAccesses aggregates and helper summaries of DefaultHandler::memory_accesses, compared with the specification table; exhaustive match; CALL's mutable-dependent writes." % nrows
     res.assumptions = ["oracle table in qv/oracles/memory_access_table.py"]
     return res
@@ -250,4 +271,10 @@ def _paths(e, ip):
                 out.append(r[1])
 
     walk_expr(e, v)
+    return out
+
+
+def _paths_nodes(e):
+    out = []
+    walk_expr(e, out.append)
     return out
